@@ -375,3 +375,23 @@ def allLinesH : List (Catch × Nat × List Stmt) → List Nat
   | (_, ln, body) :: rest => ln :: (allLinesL body ++ allLinesH rest)
 end
 end PwVerif.Py
+
+namespace PwVerif.Py
+mutual
+/-- line numbers of the statements inside `finally` blocks -/
+def finallyLines : Stmt → List Nat
+  | .line _ _ => []
+  | .ret _ _ => []
+  | .brk _ => []
+  | .call _ body _ => finallyLinesL body
+  | .ifS _ _ thn els => finallyLinesL thn ++ finallyLinesL els
+  | .whileS _ _ body => finallyLinesL body
+  | .tryS _ body hs fin => finallyLinesL body ++ finallyLinesH hs ++ allLinesL fin
+def finallyLinesL : List Stmt → List Nat
+  | [] => []
+  | s :: rest => finallyLines s ++ finallyLinesL rest
+def finallyLinesH : List (Catch × Nat × List Stmt) → List Nat
+  | [] => []
+  | (_, _, body) :: rest => finallyLinesL body ++ finallyLinesH rest
+end
+end PwVerif.Py
